@@ -43,7 +43,15 @@ META = {
              "plain list where a TraitList is required) placed at every node index of the walk, with "
              "pre-registrations sharing notifiers; (3) enumeration of multi-graph expressions with the "
              "failing / unregistered graph at every index and of branch siblings; (4) weakness runs on "
-             "dedicated objects; (5) a 4-thread add/remove stress.  distinct_nontrivial counts distinct "
+             "dedicated objects; (4b) stale owners: 1-3 targets register over long-lived shared objects "
+             "and are collected WITHOUT unregistering, then a burst of 4-8 fresh targets of the same "
+             "class (allocated right away, so freed addresses are reused; reuse is only counted) each "
+             "register/unregister the same long-lived handler, expression and dispatch, with probes, "
+             "graph mutations on the shared objects and one further unregistration; (1b) 'duplicates' "
+             "histories: lists holding one object several times, mutated by slice / extended-slice / "
+             "whole-list assignments and dict.update() whose replacement overlaps the removed items "
+             "with different multiplicities, interleaved with add/remove of expressions that go through "
+             "the items; (5) a 4-thread add/remove stress.  distinct_nontrivial counts distinct "
              "(stratum, op, expression shape, handler kind, dispatch, count class, outcome class, "
              "failure-position class) signatures of steps in which a registration changed, a call was "
              "observed, an exception was raised or an object died."),
@@ -54,14 +62,18 @@ META = {
                   "failed_removes_checked": 1000, "failpos_cases": 500, "failpos_sibling_cases": 250,
                   "zero_census_checks": 2000, "calls_observed": 8000, "ui_queued_calls": 300,
                   "weak_deaths_checked": 400, "gc_threshold_cases": 120, "thread_stress_runs": 1,
-                  "mutations": 1200, "count_ge2_probes": 2000},
+                  "mutations": 1200, "count_ge2_probes": 2000, "duplicate_histories": 200,
+                  "multiplicity_changing_events_while_registered": 150, "stale_owner_cycles": 600,
+                  "stale_owner_address_reused": 150},
         "thorough": {"evaluations": 5000000, "probe_checks": 5000000, "adds_ok": 80000,
                      "removes_ok": 80000, "failed_adds_checked": 20000,
                      "failed_adds_held_first_path": 10000, "failed_removes_checked": 40000,
                      "failpos_cases": 8000, "failpos_sibling_cases": 4000, "zero_census_checks": 60000,
                      "calls_observed": 300000, "ui_queued_calls": 10000,
                      "weak_deaths_checked": 10000, "gc_threshold_cases": 2500,
-                     "thread_stress_runs": 8, "mutations": 40000, "count_ge2_probes": 80000},
+                     "thread_stress_runs": 8, "mutations": 40000, "count_ge2_probes": 80000,
+                     "duplicate_histories": 6000, "multiplicity_changing_events_while_registered": 4000,
+                     "stale_owner_cycles": 12000, "stale_owner_address_reused": 3000},
     },
     "exhaustive_parts": ("failure position: every node index of the walk for trees of depth 1..4 x "
                          "fan-out 1..3 (quick: depth 4 only with fan-out <= 2); multi-graph "
@@ -601,7 +613,7 @@ class Session:
         w.update(self.extra)
         w.update(kw)
         w["objects_now"] = describe_objs(self.objs)
-        w["targets"] = ["Node#%d" % sn_of(r) for r in self.roots]
+        w["targets"] = ["Node#%d" % sn_of(r) for r in self.roots if r is not None]
         return w
 
     def fail(self, key, msg, **kw):
@@ -849,7 +861,7 @@ class Session:
 RANKS = (2, 3, 3, 2)
 
 
-def build_pool(rng):
+def build_pool(rng, dup=False):
     layers = []
     sn = 0
     for r, n in enumerate(RANKS):
@@ -875,7 +887,10 @@ def build_pool(rng):
                 o.child = rng.choice(nxt)
             if rng.random() < 0.7:
                 o.other_child = rng.choice(nxt)
-            if rng.random() < 0.9:
+            if dup:                           # the same object several times in one list
+                a = rng.choice(nxt)
+                o.children = [a if rng.random() < 0.6 else rng.choice(nxt) for _ in range(rng.randint(2, 5))]
+            elif rng.random() < 0.9:
                 o.children = [rng.choice(nxt) for _ in range(rng.randint(1, 3))]
             o.cmap = {"k%d" % i: rng.choice(nxt) for i in range(rng.randint(0, 2))}
             o.cset = set(rng.sample(nxt, rng.randint(0, 2)))
@@ -949,13 +964,15 @@ def catalogue():
     return ok, bad
 
 
-def mutation(rng, layers, rank, objs):
+def mutation(rng, layers, rank, objs, dup=False):
     """Pick one structural change that certainly changes something.
     Returns (description, observables fired, action) or None."""
     o = rng.choice([x for x in objs if rank[sn_of(x)] < len(layers) - 1])
     nxt = layers[rank[sn_of(o)] + 1]
     s = sn_of(o)
-    k = rng.randrange(16)
+    k = rng.choice(DUP_KINDS) if dup else rng.randrange(21)
+    if k >= 16:
+        return multi_item_mutation(rng, o, nxt, s, k)
     if k <= 2:
         name = "child" if k < 2 else "other_child"
         cur = getattr(o, name)
@@ -1032,17 +1049,99 @@ def mutation(rng, layers, rank, objs):
             lambda: setattr(o, "cset", new))
 
 
-def main_history(ctx, h, OK, BAD):
-    rng = ctx.rng("M", h)
-    objs, layers, rank = build_pool(rng)
-    S = Session(ctx, "main", objs, layers[0])
+DUP_KINDS = (16, 16, 16, 17, 17, 17, 18, 18, 19, 20, 3, 4, 5, 6, 7, 8)
+MULTIPLICITY = {"last": False}
+
+
+def multi_item_mutation(rng, o, nxt, s, k):
+    """ONE container event that removes and adds several items at once; the
+    replacement overlaps the removed objects, so an object can stay in the
+    container while the number of its occurrences changes."""
+    if k == 20:
+        d = o.cmap
+        keys = ["k%d" % i for i in range(4)]
+        pool = list(d.values()) + list(nxt)
+        upd = {key: rng.choice(pool) for key in rng.sample(keys, rng.randint(1, 3))}
+        if all(key in d and d[key] is v for key, v in upd.items()):
+            return None                       # update() with nothing new: whether an event is due is C06's business
+        before = collections.Counter(id(v) for key, v in d.items() if key in upd)
+        after = collections.Counter(id(v) for v in upd.values())
+        multi = any(before[i] != after[i] for i in before if i in after)
+        return ("#%d.cmap.update(%r)" % (s, {a: sn_of(b) for a, b in upd.items()}),
+                [("c", s, "cmap")], lambda: d.update(upd), multi)
+    lst = o.children
+    L = len(lst)
+    if k == 19:                               # whole-list replacement through the slice
+        sl = slice(None, None, None)
+    elif k == 18:                             # extended slice: same number of items
+        if L < 2:
+            return None
+        sl = slice(rng.choice([None, 0, 1]), None, rng.choice([2, 2, -1, -2, 3]))
+    else:
+        i = rng.randint(0, L)
+        j = rng.randint(i, L)
+        sl = slice(i, j, None)
+    removed = lst[sl]
+    pool = list(removed) * 2 + list(lst) + list(nxt)
+    n = len(removed) if k == 18 else rng.randint(0, 3)
+    new = [rng.choice(pool) for _ in range(n)]
+    if not removed and not new:
+        return None
+    if [id(a) for a in new] == [id(a) for a in removed]:
+        return None                           # same content: nothing the model could probe
+    before = collections.Counter(id(a) for a in removed)
+    after = collections.Counter(id(a) for a in new)
+    multi = any(before[i] != after[i] for i in before if i in after)
+    txt = "%s:%s%s" % ("" if sl.start is None else sl.start, "" if sl.stop is None else sl.stop,
+                       "" if sl.step is None else ":%d" % sl.step)
+    return ("#%d.children[%s] = %r" % (s, txt, [sn_of(a) for a in new]), [("c", s, "children")],
+            lambda: lst.__setitem__(sl, new), multi)
+
+
+def do_mutation(S, rng, layers, rank, objs, dup=False):
+    """One structural change + its own event check.  'skip' / 'ok' / 'late'."""
+    ctx = S.ctx
+    m = mutation(rng, layers, rank, objs, dup=dup)
+    if m is None:
+        return "skip"
+    desc, obs, action = m[:3]
+    multi = len(m) > 3 and m[3]
+    S.trace.append(("mutate", desc))
+    S.fire("mutation", obs, action, desc, thread_rng=rng)
+    m = action = None                         # the closures hold pool objects
+    S.invalidate()
+    ctx.count("mutations")
+    if multi:
+        ctx.count("multiplicity_changing_events")
+        if S.total():
+            ctx.count("multiplicity_changing_events_while_registered")
+            ctx.sig(S.stratum, "multiplicity-change", min(S.total(), 3))
+    late = [gk for (kri, khi, gk, kd), n in S.counts.items() if n > 0
+            and not S.analysis(kri, S.graphs[gk]).ok]
+    if late:
+        ctx.count("histories_ended_by_late_failure")
+        return "late"
+    return "ok"
+
+
+def main_history(ctx, h, OK, BAD, dup=False):
+    rng = ctx.rng("D" if dup else "M", h)
+    objs, layers, rank = build_pool(rng, dup=dup)
+    S = Session(ctx, "duplicates" if dup else "main", objs, layers[0])
     del objs                                  # S.objs is the only list holding the pool
     S.set_base()
     nsteps = 15
     mine = rng.sample(OK, 3) + [rng.choice(OK[:12])]
+    if dup:                                   # expressions that go through container items
+        through = [e for e in OK if any(k in e.shape for k in ("I", "L", "D"))]
+        mine = rng.sample(through, 3) + [rng.choice(through)]
     dropped_root = dropped_owner = False
     for step in range(nsteps):
         r = rng.random()
+        if dup and r >= 0.90:                 # no gc / drop steps here: more mutations instead
+            r = 0.75
+        if dup and 0.34 <= r < 0.44:
+            r = 0.75
         nroots = len(S.roots)
         ri = 0 if (nroots == 1 or rng.random() < 0.7) else 1
         hi = rng.randrange(3)
@@ -1085,19 +1184,10 @@ def main_history(ctx, h, OK, BAD):
                 continue
             S.remove(ri, hi, e, disp)
         elif r < 0.90:
-            m = mutation(rng, layers, rank, S.objs)
-            if m is None:
+            res = do_mutation(S, rng, layers, rank, S.objs, dup=dup)
+            if res == "skip":
                 continue
-            desc, obs, action = m
-            S.trace.append(("mutate", desc))
-            S.fire("mutation", obs, action, desc, thread_rng=rng)
-            m = action = None                 # the closures hold pool objects
-            S.invalidate()
-            ctx.count("mutations")
-            late = [gk for (kri, khi, gk, kd), n in S.counts.items() if n > 0
-                    and not S.analysis(kri, S.graphs[gk]).ok]
-            if late:
-                ctx.count("histories_ended_by_late_failure")
+            if res == "late":
                 return
         elif r < 0.94:
             S.trace.append(("gc.collect",))
@@ -1459,6 +1549,10 @@ def weak_fn(event):
     WEAK_HITS["function"] += 1
 
 
+for _table in (NAMES, CENSUS_EXTRA, TAGS, LEAF_PROBES, CONTAINERS):
+    _table[WNode] = _table[Node]
+
+
 WEAK_EXPRS = ["value", "child.value", "child:value", "children.items.value", "cmap.items.value",
               "cset.items.value", "child.child.value", "[child,children.items].value", "*", "child.*",
               "+tag", "children.items", "child.[value,other]", "children.items.children.items.value"]
@@ -1600,6 +1694,139 @@ def weak_case(ctx, i):
                       "exception channel after the %s died: %r" % (mode, cap[:3]), desc)
         return
     ctx.count("weak_cases_held")
+
+
+# ---------------------------------------------------------------------------
+# stale owners: targets that died WITHOUT unregistering, over long-lived shared objects,
+# followed by a burst of fresh targets of the same class
+# ---------------------------------------------------------------------------
+def stale_entries():
+    E = Entry
+    C = lambda *k, **kw: t("child", *k, **kw)          # noqa: E731
+    return [
+        E("child.child.value", [C(C(V))]),
+        E("child:child:value", [C(C(V, notify=False), notify=False)]),
+        E("child.children.items.value", [C(t("children", items(V)))]),
+        E("children.items.child.value", [t("children", items(C(V)))]),
+        E("child.cmap.items.value", [C(t("cmap", items(V)))]),
+        E("cmap.items.child.value", [t("cmap", items(C(V)))]),
+        E("child.child.[value,other]", [C(C(V, t("other")))]),
+        E("child.children.items.children.items.value", [C(t("children", items(t("children", items(V)))))]),
+        E("x:child.children.list.value", [C(t("children", li(V)))]),
+        E("x:child.extra?.value", [C(t("extra", V, optional=True))]),
+        E("child.+link.value", [C(meta("link", V))]),
+        E("[child,children.items].child.value", [C(C(V)), t("children", items(C(V)))],
+          text="[child,children.items].child.value"),
+        E("child.value", [C(V)]),
+    ]
+
+
+def stale_owner_case(ctx, i):
+    rng = ctx.rng("SO", i)
+    objs, layers, rank = small_graph(rng)
+    shared_layers = [[]] + layers[1:]          # rank 0 is where the short-lived targets live
+    shared = [o for layer in layers[1:] for o in layer]
+    del objs, layers
+    S = Session(ctx, "stale-owner", shared, [])
+    S.tainted = True                           # dead entries stay behind: no baseline equality
+    entries = stale_entries()
+    entry = rng.choice(entries)
+    hi = rng.choice([0, 0, 1, 2])              # the SAME long-lived handler for every target
+    disp = "same" if rng.random() < 0.7 else "ui"
+    n = rng.choice([1, 1, 2])
+    serial = itertools.count(100)
+    hubs = shared_layers[1]
+
+    def link(r):
+        r.children, r.cmap, r.cset, r.other_child, r.bag
+        r.value = r.other = r.tagged = 0
+        r.child = hubs[0]
+        r.children = [hubs[0], hubs[-1]]
+        r.cmap = {"k0": hubs[0]}
+        r.cset = {hubs[-1]}
+        S.roots.append(r)
+        S.objs.append(r)
+        S.invalidate()
+        return len(S.roots) - 1
+
+    def unlink(ri):
+        r = S.roots[ri]
+        S.roots[ri] = None
+        S.objs.remove(r)
+        for k in [k for k in S.counts if k[0] == ri]:
+            del S.counts[k]
+        S.invalidate()
+
+    # -- phase 1: targets that register and die without unregistering ---------------
+    nstale = rng.randint(1, 3)
+    stale = []
+    for _ in range(nstale):
+        ri = link(WNode(sn=next(serial)))
+        for _ in range(n):
+            S.add(ri, hi, entry, disp)
+        stale.append(ri)
+    S.probe_all(rng, objs=shared)
+    victims = [S.roots[ri] for ri in stale]
+    dead_ids = set(id(v) for v in victims)     # only ever used to COUNT address reuse
+    refs = [weakref.ref(v) for v in victims]
+    for ri in stale:
+        unlink(ri)                             # bookkeeping first; `victims` still holds them
+    S.trace.append(("drop %d registered target(s) + gc.collect()" % nstale,))
+    nburst = rng.randint(4, 8)
+    del victims[:]                             # the targets die here (or in the collection below)
+    burst = [WNode() for _ in range(nstale)]   # right away, same class: the freed blocks are handed out again
+    gc.collect()
+    burst += [WNode() for _ in range(nburst - nstale)]
+    for r in burst:
+        r.sn = next(serial)
+    r = None
+    ctx.ev()
+    ctx.count("weak_deaths_checked", nstale)
+    if any(w() is not None for w in refs):
+        S.fail("weak/target-kept-alive", "a registered target survived del + gc.collect()")
+    S.probe_all(objs=shared)
+    do_mutation(S, rng, shared_layers, rank, shared, dup=rng.random() < 0.3)
+    S.probe_all(objs=shared)
+    # -- phase 2: fresh targets of the same class, same handler / expression / dispatch -
+    keep = []
+    for r in burst:
+        reused = id(r) in dead_ids
+        ctx.count("stale_owner_fresh_targets")
+        if reused:
+            ctx.count("stale_owner_address_reused")
+        ri = link(r)
+        r = None
+        c0 = S.census()
+        for _ in range(n):
+            S.add(ri, hi, entry, disp)
+        S.probe_all(rng, objs=shared)
+        if rng.random() < 0.4:
+            do_mutation(S, rng, shared_layers, rank, shared)
+            S.probe_all(objs=shared)
+            c0 = None                          # containers may have been replaced
+        for _ in range(n):
+            S.remove(ri, hi, entry, disp)
+        ctx.ev()
+        if c0 is not None:
+            c1 = S.census()
+            if c1 != c0:
+                S.fail("stale-owner/census-differs-after-unregistration",
+                       "a fresh target registered and unregistered %d time(s) over objects that still "
+                       "carry the entries of a dead target, census before/after: %r"
+                       % (n, census_diff(c0, c1)[:6]))
+        S.probe_all(objs=shared)
+        # a graph change on the shared objects must not bring the handler back
+        for _ in range(2):
+            do_mutation(S, rng, shared_layers, rank, shared)
+        S.probe_all(objs=shared)
+        S.remove(ri, hi, entry, disp)          # one further unregistration: NotifierNotFound
+        ctx.count("stale_owner_cycles")
+        ctx.sig("stale-owner", entry.shape, HANDLER_KINDS[hi], disp, n, reused)
+        if rng.random() < 0.5:                 # leaves cleanly: its address may be reused as well
+            unlink(ri)
+        else:
+            keep.append(ri)
+    S.probe_all(objs=shared)
 
 
 # ---------------------------------------------------------------------------
@@ -1856,6 +2083,18 @@ def _run(ctx):
             ctx.count("histories")
         finally:
             ctx.end()
+    # ---- (1b) duplicates: multi-item container events that change multiplicities ----
+    nd = ctx.scale(640, 20000)
+    for h in range(nd):
+        if not ctx.mine(h):
+            continue
+        if not ctx.begin("D:%d" % h):
+            continue
+        try:
+            guarded(ctx, main_history, h, OK, BAD, True, gc_hard=(h % 16 == 7))
+            ctx.count("duplicate_histories")
+        finally:
+            ctx.end()
     # ---- (2) failure positions ------------------------------------------------
     nvar = ctx.scale(3, 8)
     for ci, (D, F, li_) in enumerate(failpos_configs(ctx)):
@@ -1920,6 +2159,18 @@ def _run(ctx):
     ctx.sample({"stratum": "weakness", "mode": "owner",
                 "history": ["o.observe(owner.meth, 'child.value')", "del owner", "gc.collect()",
                             "o.child.value += 1", "o.child = None"]})
+    # ---- (4b) stale owners + bursts of fresh targets ------------------------------------
+    ns = ctx.scale(48, 1200)
+    for b in range(ns):
+        if not ctx.mine(b):
+            continue
+        if not ctx.begin("SO:%d" % b):
+            continue
+        try:
+            for j in range(8):
+                guarded(ctx, stale_owner_case, b * 8 + j, gc_hard=(j == 5))
+        finally:
+            ctx.end()
     # ---- (5) thread stress ---------------------------------------------------------
     nt = ctx.scale(4, 32)
     for i in range(nt):
